@@ -200,7 +200,7 @@ Proof.
       destruct (cval c) as [code|m| |] eqn:Hc.
       * (* core forms *)
         destruct (N.eqb code CORE_LAMBDA).
-        { destruct args as [|ps [|body [|z zs]]]; try discriminate.
+        { destruct args as [|ps [|body [|z zs]]]; try discriminate; try (destruct ps; discriminate).
           destruct ps as [| |ps|]; try discriminate.
           cbn [map swapU]. rewrite params_ok_swap. destruct (params_ok ps); [|discriminate].
           change (@nil (sexp * cell)) with (swap_al a b []) at 1. rewrite push_params_swap.
@@ -208,8 +208,9 @@ Proof.
           cbn [forallb] in Hargs. apply andb_true_iff in Hargs. destruct Hargs as [_ Hb]. apply andb_true_iff in Hb. destruct Hb as [Hb _].
           destruct (resolve [a; b] mt f (set_cell st next') [] (Frame [] bnds :: U ++ G) body) as [[st' bt]|e] eqn:HB; [|discriminate].
           change (Frame [] bnds :: U ++ G) with ((Frame [] bnds :: U) ++ G) in HB.
-          pose proof (IH _ _ _ _ Hb HB) as HB'. cbn [swap_env map app] in HB'. unfold swap_frame in HB' at 1. cbn [f_renames f_bindings swap_al map] in HB'.
-          cbn [swap_al map]. rewrite HB'. exact H. }
+          assert (HB' : resolve [] mt f (set_cell st next') [] (Frame [] (swap_al a b bnds) :: SE U ++ G) (SW body) = OK (st', bt))
+            by exact (IH _ (Frame [] bnds :: U) _ _ Hb HB).
+          rewrite HB'. exact H. }
         destruct (N.eqb code CORE_IF).
         { destruct args as [|x1 [|x2 [|x3 [|z zs]]]]; try discriminate.
           - cbn [map].
@@ -254,3 +255,29 @@ Proof.
 Qed.
 
 End Core.
+
+Theorem rename_invariance_core_thm : forall a b mt G fuel st U x r,
+  no_local G -> wfx x = true ->
+  resolve [a; b] mt fuel st [] (U ++ G) x = OK r ->
+  resolve [] mt fuel st [] (swap_env a b U ++ G) (swapU a b x) = OK r.
+Proof. intros a b mt G fuel st U x r HG. exact (rename_invariance_core_proof a b mt G HG fuel st U x r). Qed.
+
+(** non-vacuity: the program of ExpandProofs.v — (lambda (x) (or2 x 5)), x renamed to `if` — satisfies the
+    hypotheses; a nested program with two user binders, a macro-introduced binder handed on to another macro
+    use, set! and quoted template data *)
+Lemma no_local_Gm : no_local Gm.
+Proof.
+  unfold no_local, Gm. apply Forall_cons; [|apply Forall_nil]. split; intros k c Hin; cbn [f_renames f_bindings In] in Hin.
+  - contradiction.
+  - repeat (destruct Hin as [Hin|Hin]; [inversion Hin; reflexivity|]). contradiction.
+Qed.
+Example ex_core_hyps : wfx prog = true /\ exists r, resolve [40; 10]%N [or2] 20 ((1000, 1)%N, []) [] ([] ++ Gm) prog = OK r.
+Proof. split; [reflexivity|]. eexists. vm_compute. reflexivity. Qed.
+Example ex_core_instance :
+  resolve [] [or2] 20 ((1000, 1)%N, []) [] Gm (swapU 40 10 prog)
+  = resolve [40; 10]%N [or2] 20 ((1000, 1)%N, []) [] Gm prog.
+Proof.
+  destruct ex_core_hyps as [Hw [r Hr]].
+  pose proof (rename_invariance_core_proof 40 10 [or2] Gm no_local_Gm 20 ((1000, 1)%N, []) [] prog r Hw Hr) as H.
+  change (swap_env 40 10 [] ++ Gm) with Gm in H. change ([] ++ Gm) with Gm in Hr. now rewrite H, Hr.
+Qed.
